@@ -35,7 +35,7 @@ CLAIMED["C18"] = (
     "DESIGN.md section 4 C18")
 CLAIMED["C16"] = (
     "MIR atomic check-then-act detection (R-ATOM), lock-guard liveness coverage of named atomic operations "
-    "(R-LOCKCOV), raw-owner-pointer escape analysis (R-OWN), commit-before-check with undo on the refusing path (R-COMMIT, through deciding helpers) and compile-fail witnesses",
+    "(R-LOCKCOV), raw-owner-pointer escape analysis (R-OWN), commit-before-check with undo on the refusing path (R-COMMIT, through deciding helpers), RMW-only updates of the live-token counters (R-COUNT.rmw) and compile-fail witnesses",
     "static rules over MIR plus borrow-checker witnesses: the writer-exclusivity decision is a single RMW; version "
     "assignment, live-count increment and threshold advance happen under token_chain_mutex; tokens are (not) tied to "
     "their manager",
